@@ -72,7 +72,18 @@ type Act struct {
 	User   string   `json:"user,omitempty"`
 	Aname  string   `json:"aname,omitempty"`
 	Err    bool     `json:"err,omitempty"` // the implementation answers Rerror
+	// Kind "park": the request Op (read | write | wstat) on Fid is handed to the
+	// implementation and stays parked inside it while the history goes on (the
+	// client does not wait for its reply). Kind "unpark": the Sel-th (mod) of
+	// the requests parked so far is released and its reply awaited. A request
+	// still parked at the cut is one more request executing at the cut.
+	Op  string `json:"op,omitempty"`
+	Sel int    `json:"sel,omitempty"`
 }
+
+// parkSeq keeps the keys of parked requests apart from those of the history
+// acts (seq = index) and of the requests executing at the cut (1000+i).
+const parkSeq = 5000
 
 // Flight is a request that is still executing when the connection is cut. Its
 // fid numbers are selectors resolved against the reference fid table at the
@@ -123,6 +134,13 @@ type Case struct {
 func (a *Act) msg(seq int) *ref9p.Msg {
 	uid := map[string]uint32{"root": 0, "alice": 1001, "bob": 1002, "mallory": 6666}[a.User]
 	switch a.Kind {
+	case "park":
+		switch a.Op {
+		case "read", "write", "wstat":
+			b := Act{Kind: a.Op, Fid: a.Fid, Count: a.Count}
+			return b.msg(seq + parkSeq)
+		}
+		return nil
 	case "auth":
 		return &ref9p.Msg{Type: ref9p.Tauth, Afid: a.Afid, Uname: a.User, Aname: a.Aname, Nuname: uid}
 	case "attach":
@@ -172,6 +190,11 @@ func (c *Case) frames() [][]byte {
 	}
 	for i := range c.History {
 		m := c.History[i].msg(i)
+		if m == nil {
+			// "unpark" sends nothing: an empty frame keeps frame k+1 = act k
+			out = append(out, nil)
+			continue
+		}
 		m.Tag = uint16(i + 1)
 		out = append(out, ref9p.Encode(m, c.Dotu))
 	}
@@ -326,6 +349,56 @@ func (f *Flight) harmless() bool {
 	return false
 }
 
+func genPark(t *rapid.T) Act {
+	return Act{Kind: "park",
+		Fid:   rapid.SampledFrom([]uint32{0, 1, 1, 2, 3, 0xFFFFFFFE}).Draw(t, "pfid"),
+		Op:    rapid.SampledFrom([]string{"wstat", "wstat", "read", "write"}).Draw(t, "pop"),
+		Count: rapid.SampledFrom([]uint32{0, 1, 100}).Draw(t, "pcount"),
+		Err:   rapid.IntRange(0, 4).Draw(t, "perr") == 0,
+	}
+}
+
+// genReuse: a fid number changes hands while an earlier request on it is
+// still parked inside the implementation: (make F valid,) park a request on F,
+// clunk/remove F, bind F again (walk or attach), maybe open/create through it,
+// and release the parked request, with drawn acts in between. Where the cut
+// falls decides how much of this has happened at the disconnect.
+func genReuse(t *rapid.T, c *Case) []Act {
+	F := rapid.SampledFrom([]uint32{1, 1, 2, 3, 0, 0xFFFFFFFE}).Draw(t, "rfid")
+	var out []Act
+	filler := func(label string) {
+		if rapid.IntRange(0, 3).Draw(t, label) == 0 {
+			out = append(out, genAct(t, c.Auth))
+		}
+	}
+	if F != 0 {
+		// refused ("fid already in use") when F is valid already
+		out = append(out, Act{Kind: "walk", Fid: 0, Newfid: F, Names: rapid.SampledFrom([][]string{nil, {"f1"}, {"d1"}}).Draw(t, "rsrc")})
+	}
+	p := genPark(t)
+	p.Fid = F
+	out = append(out, p)
+	filler("fill1")
+	out = append(out, Act{Kind: rapid.SampledFrom([]string{"clunk", "clunk", "remove"}).Draw(t, "rkill"), Fid: F, Err: rapid.IntRange(0, 5).Draw(t, "rkillerr") == 0})
+	filler("fill2")
+	if F == 0 || rapid.IntRange(0, 3).Draw(t, "rattach") == 0 {
+		out = append(out, Act{Kind: "attach", Fid: F, Afid: ref9p.NOFID, User: "alice", Aname: "tree"})
+	} else {
+		out = append(out, Act{Kind: "walk", Fid: 0, Newfid: F, Names: rapid.SampledFrom([][]string{nil, {"f1"}, {"d1"}, {"d1", "f1"}}).Draw(t, "rdst")})
+	}
+	switch rapid.IntRange(0, 3).Draw(t, "ropen") {
+	case 0:
+		out = append(out, Act{Kind: "open", Fid: F, Mode: 0})
+	case 1:
+		out = append(out, Act{Kind: "create", Fid: F, Mode: 2, Perm: 0o644})
+	}
+	filler("fill3")
+	if rapid.IntRange(0, 5).Draw(t, "runpark") > 0 {
+		out = append(out, Act{Kind: "unpark", Sel: rapid.IntRange(0, 3).Draw(t, "rsel")})
+	}
+	return out
+}
+
 func genHistory(t *rapid.T, c *Case, max int) {
 	n := rapid.IntRange(0, max).Draw(t, "n")
 	if rapid.IntRange(0, 9).Draw(t, "prime") > 0 {
@@ -334,8 +407,25 @@ func genHistory(t *rapid.T, c *Case, max int) {
 			c.History = append(c.History, Act{Kind: "walk", Fid: 0, Newfid: 1, Names: []string{"f1"}}, Act{Kind: "open", Fid: 1, Mode: 2})
 		}
 	}
-	for i := 0; i < n; i++ {
-		c.History = append(c.History, genAct(t, c.Auth))
+	reuseAt := -1
+	if rapid.IntRange(0, 2).Draw(t, "reuse?") == 0 {
+		reuseAt = rapid.IntRange(0, n).Draw(t, "reuseat")
+	}
+	for i := 0; i <= n; i++ {
+		if i == reuseAt {
+			c.History = append(c.History, genReuse(t, c)...)
+		}
+		if i == n {
+			break
+		}
+		switch rapid.IntRange(0, 15).Draw(t, "park?") {
+		case 0:
+			c.History = append(c.History, genPark(t))
+		case 1:
+			c.History = append(c.History, Act{Kind: "unpark", Sel: rapid.IntRange(0, 3).Draw(t, "sel")})
+		default:
+			c.History = append(c.History, genAct(t, c.Auth))
+		}
 	}
 }
 
@@ -432,8 +522,8 @@ func drawCut(t *rapid.T, fr [][]byte) int {
 	for i := 0; i < k && i < len(fr); i++ {
 		off += len(fr[i])
 	}
-	if k >= len(fr) || rapid.Bool().Draw(t, "boundary") {
-		return off
+	if k >= len(fr) || len(fr[k]) < 2 || rapid.Bool().Draw(t, "boundary") {
+		return off // (an "unpark" act has no frame to cut through)
 	}
 	l := len(fr[k])
 	p := rapid.OneOf(rapid.SampledFrom([]int{1, 2, 3, 4, 5, 6, 7, 8, l - 1, l - 2}), rapid.IntRange(1, l-1)).Draw(t, "p")
